@@ -1,4 +1,5 @@
 import Httoop.Proofs.Abspath
+import Httoop.Proofs.RfcAbspath
 import Httoop.Spec.Rfc3986
 import Httoop.Gen.Tables
 /-
@@ -199,5 +200,20 @@ theorem parse_charsets :
 /-- the RFC transcription and the model agree on a path that exercises every rule (a test, not the theorem) -/
 example : abspath "/a/b/../c/./d//e/..".toUTF8.toList = Rfc3986.removeDotSegments (collapse "/a/b/../c/./d//e/..".toUTF8.toList) := by
   decide +kernel
+
+
+/-! ### equal to RFC 3986 §5.2.4 -/
+
+/-- **the RFC clause of C11**: for a URI with scheme and host whose path begins with a slash, the path that
+    `normalize()` leaves is `remove_dot_segments` (RFC 3986 §5.2.4, transcribed from the RFC text in
+    `Spec/Rfc3986.lean`) of the path with its slash runs collapsed — for every path, of any length. -/
+theorem normalize_path_rfc (E : Env) (u : Uri) (hs : u.scheme ≠ []) (hh : u.host ≠ [])
+    (hp : startsWith u.path [0x2F] = true) :
+    (normalize E u).path = Rfc3986.removeDotSegments (collapse u.path) := by
+  rw [← abspath_eq_rfc u.path hp]
+  unfold normalize normFix
+  have e1 : (lowerBytes u.scheme).isEmpty = false := by rw [lowerBytes_isEmpty]; simpa using hs
+  have e2 : (lowerBytes u.host).isEmpty = false := by rw [lowerBytes_isEmpty]; simpa using hh
+  simp only [e1, e2, Bool.not_false, Bool.and_true]
 
 end Httoop.Uri
